@@ -146,6 +146,11 @@ def redF : String → M (List GRat → GRat)
   | "all" => pure (fun l => if l.all (· != (0 : GRat)) then 1 else 0)
   | f => throw s!"unknown reduction {f}"
 
+/-- `ufunc.__name__` of the NumPy ufunc an operator or alias resolves to -/
+def ufuncName : String → String
+  | "conj" => "conjugate" | "sub" => "subtract" | "mul" => "multiply" | "truediv" => "divide"
+  | "true_divide" => "divide" | s => s
+
 def arangeR (n : Nat) : List Rat := (List.range n).map (fun (k : Nat) => (k : Rat))
 
 structure Out where
@@ -225,7 +230,10 @@ def step (s : Store) (j : Json) : M Out := do
     let shape ← jNatList (← jField j "shape")
     let vals ← (← jArr (← jField j "values")).mapM jGRat
     let refl := (jFieldOpt j "refl").isSome
-    produce (fun d => d.arrayOp (fun x y => if refl then f y x else f x y) ⟨shape, vals⟩)
+    -- `ndarray ∘ data` is dispatched by NumPy to `__array_ufunc__`, which stamps the history
+    let fname ← jStr (← jField j "f")
+    produce (fun d => (d.arrayOp (fun x y => if refl then f y x else f x y) ⟨shape, vals⟩).map
+      (fun r => if refl then r.addHist ("numpy." ++ ufuncName fname) ["args", "kwargs"] else r))
   | "method" => do
     let f ← jStr (← jField j "f"); let dim ← jStr (← jField j "dim")
     let ofR : Rat → GRat := GRat.ofRat
@@ -236,8 +244,11 @@ def step (s : Store) (j : Json) : M Out := do
     | "minimum" => produce (·.reduceDim (gbest GRat.lt) dim)
     | "argmax" => produce (·.argCoord ofR (fun a b => GRat.lt b a) dim)
     | "argmin" => produce (·.argCoord ofR GRat.lt dim)
-    | "argmax_index" => produce (·.reduceDim (fun l => ofN (argBest (fun a b => GRat.lt b a) l)) dim)
-    | "argmin_index" => produce (·.reduceDim (fun l => ofN (argBest GRat.lt l)) dim)
+    -- a 1-D object makes numpy.argmax return a NumPy integer scalar, which the values setter rejects
+    | "argmax_index" => produce (fun d => if d.dims.length = 1 ∧ dim ∈ d.dims then .error .type else
+        d.reduceDim (fun l => ofN (argBest (fun a b => GRat.lt b a) l)) dim)
+    | "argmin_index" => produce (fun d => if d.dims.length = 1 ∧ dim ∈ d.dims then .error .type else
+        d.reduceDim (fun l => ofN (argBest GRat.lt l)) dim)
     | "cumulative_sum" => produce (·.cumulativeSum dim)
     | _ => throw s!"unknown method {f}"
   | "np_reduce" => do
@@ -251,16 +262,23 @@ def step (s : Store) (j : Json) : M Out := do
     | .ok (.inr v) => pure { store := s, ret := some (gJ v) }
   | "np_unary" => do
     let fname ← jStr (← jField j "f"); let f ← unF fname
-    produce (fun d => .ok (d.npUnary fname f))
+    produce (fun d => .ok (d.npUnary (ufuncName fname) f))
   | "np_binary" => do
     let fname ← jStr (← jField j "f"); let f ← binF fname
     let (_, a) ← objOf "lhs"; let (_, b) ← objOf "rhs"; let o ← outId
-    pure (fromExcept s ((Data.npBinaryData fname f a b).map (s.set o)))
+    pure (fromExcept s ((Data.npBinaryData (ufuncName fname) f a b).map (s.set o)))
   | "np_scalar" => do
     let fname ← jStr (← jField j "f"); let f ← binF fname
     let c ← jGRat (← jField j "scalar")
     let refl := (jFieldOpt j "refl").isSome
-    produce (fun d => .ok ((d.scalarOp (fun x => if refl then f c x else f x c)).addHist ("numpy." ++ fname) ["args", "kwargs"]))
+    produce (fun d => .ok ((d.scalarOp (fun x => if refl then f c x else f x c)).addHist ("numpy." ++ ufuncName fname) ["args", "kwargs"]))
+  | "concat" => do
+    let ids ← (← jArr (← jField j "objs")).mapM jNat
+    let ds ← ids.mapM s.get
+    let dim ← jStr (← jField j "dim")
+    let coord ← match jFieldOpt j "coord" with | some c => some <$> jRatList c | none => pure none
+    let o ← outId
+    pure (fromExcept s ((Data.concat arangeR ds dim coord).map (s.set o)))
   | "set_attr" => do
     let k ← jStr (← jField j "key"); let v ← jStr (← jField j "value")
     inplace (fun d => .ok { d with attrs := Data.dictSet d.attrs k v })
